@@ -80,8 +80,10 @@ DP_LOOP = r'''
 def linear_predict_fns():
     import hooks
     import linear_spec as ls
-    members = [(r'^slice\|nano::tensor_t<nano::tensor_marray_storage_t, double, 4', 'nv_lview_slice4({obj}, {0})')] + ls.LMEMBERS
-    calls = [(r'^ctor\|nano::flatten_iterator_t\|', 'nv_fiter_make({1})')] + ls.LCALLS
+    members = [(r'^slice\|nano::tensor_t<nano::tensor_marray_storage_t, double, 4', 'nv_lview_slice4({obj}, {0})'),
+               (r'^size\|nano::tensor_range_t', '({obj}.e - {obj}.b)'), (r'^begin\|nano::tensor_range_t', '({obj}.b)'), (r'^end\|nano::tensor_range_t', '({obj}.e)')] + ls.LMEMBERS
+    calls = [(r'^ctor\|nano::flatten_iterator_t\|', 'nv_fiter_make({1})'), (r'^make_range\|', 'nv_range_make({0}, {1})'),
+             (r'^ctor\|nano::tensor_range_t\|void \(const nano::tensor_size_t, const nano::tensor_size_t\)', 'nv_range_make({0}, {1})')] + ls.LCALLS
     kw = dict(types=ls.LTYPES, calls=calls, members=members, opaque=ls.LOPAQUE, self_struct='struct nv_linear',
               hooks=[hooks.param_hook(), hooks.lambda_stub_hook('loop', 'nv_dp_loop', ['linear_do_predict_chunk'], DP_LOOP, member=True)])
     return [Fn('linear_do_predict', ls.L, 'do_predict', flt='linear_t::do_predict', **kw),
@@ -112,6 +114,31 @@ def make_x0_fn():
     return Fn('linear_make_x0', 'src/linear.cpp', 'make_x0', flt='make_x0', types=types, calls=calls, members=members, ret='struct nv_x0')
 
 
+def percentile_fn():
+    VM = r'^nano::tensor1d_map_t$|^nano::tensor_t<nano::tensor_marray_storage_t, double, 1'
+    return Fn('stats_percentile', 'src/machine/stats.cpp', 'percentile', flt='percentile', select=NPARAMS(2), ret='double', uf_float=False,
+              types=[(VM, 'struct nv_vmap')],
+              calls=[(r'^begin\|', 'nv_vmap_begin({&0})'), (r'^end\|', 'nv_vmap_end({&0})'), (r'^percentile\|', 'nv_percentile({0}, {1}, {2})')])
+
+
+def c13_stats_vcs():
+    """ml::store_stats / load_stats (element k of a block <-> member k of stats_t <-> statistic k of the given values), result_t::store(trial, fold, ..) /
+    stats(trial, fold, split, value) / extra(trial, fold) slot arithmetic: the VCs of specs/C13, by reference (same spec objects)"""
+    import importlib.util
+    import os
+    path = os.path.join(os.path.dirname(os.path.abspath(__file__)), '..', 'C13', 'spec.py')
+    import sys
+    sys.path.insert(0, os.path.dirname(path))       # specs/C13 imports its own helper modules (comb)
+    try:
+        sp = importlib.util.spec_from_file_location('nv_c13_spec', path)
+        mod = importlib.util.module_from_spec(sp)
+        sp.loader.exec_module(mod)
+    finally:
+        sys.path.remove(os.path.dirname(path))
+    keep = ('result_t::store', 'result_t::stats', 'result_t::extra', 'ml::store_stats', 'ml::load_stats')
+    return [v for v in mod.result_vcs()[0] if v.group in keep]
+
+
 def targets(tier):
     P = 'specs/C11/predict.h'
     LP = 'specs/C11/linear_predict.h'
@@ -120,6 +147,7 @@ def targets(tier):
            Target('linear_make_x0', lambda: [make_x0_fn()], LP, enforce='linear_make_x0', enums=EN)]
     lin += [Target(f'{stem}_make_function', (lambda stem=stem, cls=cls: [make_function_fn(stem, cls)]), LP, enforce=f'{stem}_make_function', enums=EN)
             for stem, cls in MF_CLASSES]
+    lin.append(Target('stats_percentile', lambda: [percentile_fn()], 'specs/C11/stats.h', enforce='stats_percentile'))
     return lin + [Target('gmodel_do_predict', lambda: [gboost_predict_fn()], P, enforce='gmodel_do_predict'),
             Target('learner_predict3', lambda: [learner_fns()['p3']], P, enforce='learner_predict3'),
             Target('learner_predict2', lambda: [learner_fns()['p2'], learner_fns()['p3']], P, enforce='learner_predict2', replace=['learner_predict3'])]
